@@ -5,6 +5,7 @@ package main
 
 import (
 	"fmt"
+	"go/constant"
 	"go/token"
 	"go/types"
 	"sort"
@@ -18,6 +19,7 @@ type outcome struct {
 	Val    ssa.Value
 	At     ssa.Instruction
 	Guards []Lit
+	Via    []ssa.Instruction // outcomes of helpers this outcome was combined with (where their result is produced)
 }
 
 // outcomes lists the results of a bool function, looking through the result cell that go/ssa introduces for
@@ -69,6 +71,28 @@ func (c *Ctx) outcomes(fn *ssa.Function) []outcome {
 			break
 		}
 	}
+	// a computed result (`return a && !b`) is the two outcomes true / false under what the expression implies
+	{
+		var next []outcome
+		for _, o := range out {
+			if _, isC := constBool(o.Val); isC || !isBoolValue(o.Val) {
+				next = append(next, o)
+				continue
+			}
+			f := P.condFormula(o.Val, 0)
+			if f.op == "leaf" && f.lit.Kind == "cond" {
+				if _, k := P.litHelperCall(f.lit); k != 0 || litCall(f.lit) == nil {
+					next = append(next, o) // an opaque value: left to the rule
+					continue
+				}
+			}
+			for _, val := range []bool{true, false} {
+				next = append(next, outcome{Val: ssa.NewConst(constant.MakeBool(val), types.Typ[types.Bool]), At: o.At,
+					Guards: dedupLits(append(append([]Lit{}, o.Guards...), literals(f, val)...)), Via: o.Via})
+			}
+		}
+		out = next
+	}
 	// a guard that is the bool result of a product helper with several outcomes (`if s.matchesGlobally(code) {
 	// return true }`) is replaced by the conditions of each way the helper produces that result: one outcome per way
 	for depth := 0; depth < 3; depth++ {
@@ -117,7 +141,8 @@ func (c *Ctx) outcomes(fn *ssa.Function) []outcome {
 			changed = true
 			rest := append(append([]Lit{}, o.Guards[:idx]...), o.Guards[idx+1:]...)
 			for _, h := range sub {
-				next = append(next, outcome{Val: o.Val, At: o.At, Guards: dedupLits(append(append([]Lit{}, rest...), h.Guards...))})
+				via := append(append(append([]ssa.Instruction{}, o.Via...), h.At), h.Via...)
+				next = append(next, outcome{Val: o.Val, At: o.At, Guards: dedupLits(append(append([]Lit{}, rest...), h.Guards...)), Via: via})
 			}
 		}
 		out = next
@@ -140,6 +165,11 @@ func isFieldOf(P *Program, v ssa.Value, typ, name string) bool {
 		}
 	}
 	return len(P.Resolve(v)) > 0
+}
+
+func isBoolValue(v ssa.Value) bool {
+	b, ok := v.Type().Underlying().(*types.Basic)
+	return ok && b.Kind() == types.Bool
 }
 
 func isZeroPos(v ssa.Value) bool {
